@@ -593,6 +593,10 @@ func GenPresentation(t *rapid.T, ts Tables) (Presentation, int) {
 			fp.QuoteMask = rapid.Uint64().Draw(t, "quoteMask")
 		}
 		fp.Store = rapid.Bool().Draw(t, "store")
+		if rapid.IntRange(0, 39).Draw(t, "padTo?") == 0 {
+			// member sizes at (and next to) the chunk boundaries of plausible read loops
+			fp.PadTo = rapid.SampledFrom([]int{512, 4096, 8192, 32768, 65536, 131072}).Draw(t, "padTo") + rapid.IntRange(-1, 1).Draw(t, "padDelta")
+		}
 		fp.OmitIfEmpty = rapid.Bool().Draw(t, "omitIfEmpty")
 		if OptionalFiles[tb.Name] && len(tb.Rows) == 0 && !fp.OmitIfEmpty {
 			fp.ZeroBytes = rapid.IntRange(0, 2).Draw(t, "zeroBytes") == 0
